@@ -448,22 +448,25 @@ func (e *Entry) add(key string, value *Entry) *Entry {
 }
 
 // delete removes the directory entry key from the entry.
-func (e *Entry) delete(key string) {
+func (e *Entry) delete(key string) error {
 	// The input and output of an rpc or action are not kept in Dir.
 	if e.RPC != nil {
 		switch {
 		case key == "input" && e.RPC.Input != nil:
 			e.RPC.Input = nil
-			return
+			return nil
 		case key == "output" && e.RPC.Output != nil:
 			e.RPC.Output = nil
-			return
+			return nil
 		}
 	}
 	if _, ok := e.Dir[key]; !ok {
-		e.errorf("%s: unknown child key %s", Source(e.Node), key)
+		// The error is handed to the caller and not recorded on e: e
+		// may itself be removed later, and the error with it.
+		return fmt.Errorf("%s: unknown child key %s", Source(e.Node), key)
 	}
 	delete(e.Dir, key)
+	return nil
 }
 
 // GetWhenXPath returns the when XPath statement of e if able.
@@ -1343,7 +1346,9 @@ func (e *Entry) ApplyDeviate(deviateOpts ...DeviateOpt) []error {
 						continue
 					}
 					if !hasIgnoreDeviateNotSupported(deviateOpts) {
-						dp.delete(deviatedNode.Name)
+						if err := dp.delete(deviatedNode.Name); err != nil {
+							appendErr(err)
+						}
 					}
 				case DeviationDelete:
 					if devSpec.Config != TSUnset {
